@@ -297,9 +297,40 @@ func (ap *AP) S(size int, slices ...Slice) (newAP AP, ndStart, ndEnd int, err er
 			}
 		}
 
+		// whatever was sliced, the view is only contiguous if its strides are the default ones for its shape
+		// (a slice of a lazily transposed tensor along its first axis is not, for example)
+		if order.IsContiguous() && !hasDefaultStrides(newShape, newStrides, order) {
+			order = MakeDataOrder(order, NonContiguous)
+		}
+
 		newAP = MakeAP(newShape, newStrides, order, ap.Δ)
 	}
 	return
+}
+
+// hasDefaultStrides returns true if the strides are those of a contiguous array of the given shape in the given data order.
+// The strides of axes of length 1 never matter.
+func hasDefaultStrides(shape Shape, strides []int, o DataOrder) bool {
+	if len(shape) != len(strides) {
+		return false
+	}
+	acc := 1
+	if o.IsColMajor() {
+		for i := 0; i < len(shape); i++ {
+			if shape[i] != 1 && strides[i] != acc {
+				return false
+			}
+			acc *= shape[i]
+		}
+		return true
+	}
+	for i := len(shape) - 1; i >= 0; i-- {
+		if shape[i] != 1 && strides[i] != acc {
+			return false
+		}
+		acc *= shape[i]
+	}
+	return true
 }
 
 // T returns the transposed metadata based on the given input
